@@ -85,4 +85,13 @@ TEXT.update({
         note="Trusted: Lean kernel + 3 standard axioms; WaitGroup/mutex/channel-close semantics modelled; the function is assumed to return only after stop is closed; tie = acceptance of this run's event logs.",
         technique="Lean 4 proof (8-clause inductive invariant over an LTS with unbounded holders) + concurrent trace acceptance"),
 })
+TEXT.update({
+    "C20": dict(
+        text="Lean theorems for every reachable state of the LinearAttempt transition system (every count, receiver pace and cancellation instant relative to tick, "
+             "re-check and send): the first value is there at once; at most count values are ever put into the channel, with strictly increasing timestamps; the buffer "
+             "holds at most one; everything received was sent in order; after the cancellation at most one further tick is forwarded; the channel is closed exactly when the "
+             "goroutine is gone and after cancellation the goroutine always has an enabled step that needs no receiver. Tied by concurrent trace acceptance.",
+        note="Trusted: Lean kernel + 3 standard axioms; ticker/select/channel semantics modelled; eventual closing is proved as absence of stuck states, not as a fairness leadsTo; tie = this run's event logs.",
+        technique="Lean 4 proof (12-clause inductive invariant over the goroutine/receiver/cancel LTS) + concurrent trace acceptance"),
+})
 NOT_YET = {}
